@@ -544,6 +544,20 @@ public:
                     return i < 3 ? i : 3;
             return -1;
         };
+        // the timers are programmed through MMIO here, so their counter mirror registers are judged too (C15's clause,
+        // reached through the register bindings that the component-level scenario does not use)
+        auto timer_mirror_mismatch = [&](std::size_t si, const char* when) -> bool {
+            for (u16 i = 0; i < 2; ++i) {
+                u32 mirror = t.MMIORead((u16)(0x28 + i * 0x10)) | (u32)t.MMIORead((u16)(0x2A + i * 0x10)) << 16;
+                if (mirror != m.timer[i].mirror) {
+                    out.violate("C15.mirror", fmt("step %zu (%s, cycle %llu): timer %u counter mirror registers read 0x%08x, model 0x%08x (mode %d mu %d "
+                                                  "counter 0x%x start 0x%x)", si, when, (unsigned long long)steps, i, mirror, m.timer[i].mirror,
+                                                  m.timer[i].mode, (int)m.timer[i].mu, m.timer[i].counter, m.timer[i].start));
+                    return true;
+                }
+            }
+            return false;
+        };
         auto compare_state = [&](std::size_t si, const char* when) {
             auto& r = b.regs();
             u16 req = t.MMIORead(0x200);
@@ -557,6 +571,8 @@ public:
                 out.violate("C07.pending-bits", fmt("step %zu (%s, cycle %llu): core pending ip=%d%d%d ipv=%d, model %d%d%d / %d", si, when,
                                                     (unsigned long long)steps, r.ip[0], r.ip[1], r.ip[2], r.ipv, (int)m.ip[0], (int)m.ip[1],
                                                     (int)m.ip[2], (int)m.ipv));
+            else if (timer_mirror_mismatch(si, when))
+                ;
             else if (r.ie != m.ie || r.im[0] != m.im[0] || r.im[1] != m.im[1] || r.im[2] != m.im[2] || r.imv != m.imv)
                 out.violate("C07.ctx", fmt("step %zu (%s, cycle %llu, pc 0x%x): ie=%d im=%d%d%d imv=%d, model ie=%d im=%d%d%d imv=%d", si, when,
                                            (unsigned long long)steps, r.pc, r.ie, r.im[0], r.im[1], r.im[2], r.imv, (int)m.ie, (int)m.im[0],
